@@ -537,27 +537,55 @@ theorem parseSg_renderSg (s : SgLine) (h : wfSg s = true) :
 
 /-! ## the `BO_` statement -/
 
-theorem parseBo_core (idS name szS tx : Str) (id size : Nat)
+theorem sps_succ (n : Nat) : sps (n + 1) = ' ' :: sps n := rfl
+
+theorem skipSp_sps (n : Nat) (r : Str) : skipSp (sps n ++ r) = skipSp r := by
+  induction n with
+  | zero => rfl
+  | succ n ih => rw [sps_succ, List.cons_append, skipSp_space]; exact ih
+
+theorem skipSp_sps_cons (n : Nat) (c : Char) (r : Str) (h : c ≠ ' ') : skipSp (sps n ++ c :: r) = c :: r := by
+  rw [skipSp_sps, skipSp_of_ne c r h]
+
+theorem skipSp_sps_app (n : Nat) (a r : Str) (hne : a ≠ []) (h : ∀ c ∈ a, c ≠ ' ') :
+    skipSp (sps n ++ (a ++ r)) = a ++ r := by
+  obtain ⟨x, t, rfl⟩ := List.exists_cons_of_ne_nil hne
+  exact skipSp_sps_cons n x _ (h x (by simp))
+
+/-- blanks followed by a colon start with a character that ends a name -/
+theorem sps_colon_stop (p : Char → Bool) (hs : p ' ' = false) (hc : p ':' = false) (n : Nat) (r : Str) :
+    sps n ++ ':' :: r = [] ∨ ∃ c t, sps n ++ ':' :: r = c :: t ∧ p c = false := by
+  cases n with
+  | zero => exact Or.inr ⟨':', r, rfl, hc⟩
+  | succ n => exact Or.inr ⟨' ', sps n ++ ':' :: r, rfl, hs⟩
+
+/-- the `BO_` statement with any number of additional blanks between its pieces -/
+theorem parseBo_lex_core (k1 k2 k3 k4 k5 : Nat) (idS name szS tx : Str) (id size : Nat)
     (hid : idS ≠ []) (hid' : ∀ c ∈ idS, c ≠ ' ')
     (hnm : name ≠ []) (hnm' : ∀ c ∈ name, c ≠ ' ' ∧ c ≠ ':')
     (hsz : szS ≠ []) (hsz' : ∀ c ∈ szS, c ≠ ' ')
     (htx : tx ≠ []) (htx' : ∀ c ∈ tx, c ≠ ' ')
     (hidv : digitsToNat idS = some id) (hszv : digitsToNat szS = some size) :
-    parseBo ('B' :: 'O' :: '_' :: ' ' :: (idS ++ ' ' :: (name ++ ':' :: ' ' :: (szS ++ ' ' :: tx)))) =
-      some ⟨id, name, size, tx⟩ := by
+    parseBo ('B' :: 'O' :: '_' :: ' ' :: (sps k1 ++ (idS ++ ' ' :: (sps k2 ++ (name ++ (sps k3 ++ ':' ::
+      (sps k4 ++ (szS ++ ' ' :: (sps k5 ++ tx))))))))) = some ⟨id, name, size, tx⟩ := by
   have s1 : ∀ r, (idS ++ ' ' :: r).span (· != ' ') = (idS, ' ' :: r) := fun r =>
     span_append_of _ _ _ (by intro c hc; simpa using hid' c hc) (Or.inr ⟨_, _, rfl, by decide⟩)
-  have s2 : ∀ r, (name ++ ':' :: r).span (fun c => c != ' ' && c != ':') = (name, ':' :: r) := fun r =>
-    span_append_of _ _ _ (by intro c hc; simpa using hnm' c hc) (Or.inr ⟨_, _, rfl, by decide⟩)
+  have s2 : ∀ r, (name ++ (sps k3 ++ ':' :: r)).span (fun c => c != ' ' && c != ':') = (name, sps k3 ++ ':' :: r) :=
+    fun r => span_append_of _ _ _ (by intro c hc; simpa using hnm' c hc)
+      (sps_colon_stop _ (by decide) (by decide) k3 r)
   have s3 : ∀ r, (szS ++ ' ' :: r).span (· != ' ') = (szS, ' ' :: r) := fun r =>
     span_append_of _ _ _ (by intro c hc; simpa using hsz' c hc) (Or.inr ⟨_, _, rfl, by decide⟩)
   have s4 : tx.span (· != ' ') = (tx, []) := by
     have := span_append_of (· != ' ') tx [] (by intro c hc; simpa using htx' c hc) (Or.inl rfl)
     simpa using this
-  have k3 : ∀ r, skipSp (szS ++ r) = szS ++ r := by
-    intro r
-    obtain ⟨a, t, rfl⟩ := List.exists_cons_of_ne_nil hsz
-    exact skipSp_of_ne a _ (hsz' a (by simp))
+  have k1' : ∀ r, skipSp (sps k1 ++ (idS ++ r)) = idS ++ r := fun r => skipSp_sps_app k1 idS r hid hid'
+  have k2' : ∀ r, skipSp (sps k2 ++ (name ++ r)) = name ++ r := fun r =>
+    skipSp_sps_app k2 name r hnm (fun c hc => (hnm' c hc).1)
+  have k3' : ∀ r, skipSp (sps k3 ++ ':' :: r) = ':' :: r := fun r => skipSp_sps_cons k3 ':' r (by decide)
+  have k4' : ∀ r, skipSp (sps k4 ++ (szS ++ r)) = szS ++ r := fun r => skipSp_sps_app k4 szS r hsz hsz'
+  have k5' : skipSp (sps k5 ++ tx) = tx := by
+    have := skipSp_sps_app k5 tx [] htx htx'
+    simpa using this
   obtain ⟨a1, t1, e1⟩ := List.exists_cons_of_ne_nil hid
   obtain ⟨a2, t2, e2⟩ := List.exists_cons_of_ne_nil hnm
   obtain ⟨a3, t3, e3⟩ := List.exists_cons_of_ne_nil hsz
@@ -565,15 +593,25 @@ theorem parseBo_core (idS name szS tx : Str) (id size : Nat)
   unfold parseBo
   rw [lit_bo]
   simp only [startsWith, List.take, List.length, List.drop, beq_self_eq_true, Bool.not_true,
-    Bool.false_eq_true, if_false, s1]
+    Bool.false_eq_true, if_false, skipSp_space, k1', s1]
   subst e1
-  simp only [s2]
+  simp only [k2', s2]
   subst e2
-  simp only [skipSp_of_ne ':' _ (by decide), skipSp_space, k3, s3]
+  simp only [k3', k4', s3]
   subst e3
-  simp only [s4]
+  simp only [k5', s4]
   subst e4
   simp [hidv, hszv]
+
+theorem parseBo_core (idS name szS tx : Str) (id size : Nat)
+    (hid : idS ≠ []) (hid' : ∀ c ∈ idS, c ≠ ' ')
+    (hnm : name ≠ []) (hnm' : ∀ c ∈ name, c ≠ ' ' ∧ c ≠ ':')
+    (hsz : szS ≠ []) (hsz' : ∀ c ∈ szS, c ≠ ' ')
+    (htx : tx ≠ []) (htx' : ∀ c ∈ tx, c ≠ ' ')
+    (hidv : digitsToNat idS = some id) (hszv : digitsToNat szS = some size) :
+    parseBo ('B' :: 'O' :: '_' :: ' ' :: (idS ++ ' ' :: (name ++ ':' :: ' ' :: (szS ++ ' ' :: tx)))) =
+      some ⟨id, name, size, tx⟩ :=
+  parseBo_lex_core 0 0 0 1 0 idS name szS tx id size hid hid' hnm hnm' hsz hsz' htx htx' hidv hszv
 
 theorem wfBo_unpack {b : BoLine} (h : wfBo b = true) : isIdent b.name = true ∧ isIdent b.transmitter = true := by
   simpa [wfBo] using h
